@@ -751,7 +751,9 @@ func serverDelegation(c *Ctx, rule string) {
 			if ok {
 				// the constructor runs only when the option's getter reported a value
 				bad, _ := p.Reach(Entry(f), func(in ssa.Instruction) bool { return in == calls[0].(ssa.Instruction) }, CutSpec{Edges: func(e EdgeInfo) bool {
-					return strings.Contains(e.Facts[0], "(*"+pkgAPI+".WatchOptions)."+getter+"(") && !strings.HasPrefix(e.Facts[0], "false(") && !strings.HasPrefix(e.Facts[0], "nil(") && !strings.HasPrefix(e.Facts[0], "le(")
+					return AnyFact(e, func(f string) bool {
+						return strings.Contains(f, "(*"+pkgAPI+".WatchOptions)."+getter+"(") && !strings.HasPrefix(f, "false(") && !strings.HasPrefix(f, "nil(") && !strings.HasPrefix(f, "le(")
+					})
 				}})
 				ok = !bad
 			}
